@@ -174,7 +174,13 @@ def rule_raw_iter(ctx, repo):
                                     guarded = True
                     if not guarded:
                         problems.append('the length bytes of %s are read without the guard `%s` (guards on this path: %s)' % (c06.opn(v), want_g, sorted(k for k in p.assume if 'len(self)' in k)))
-                        if terms == {(k, 8 * k) for k in range(w)}:
+                        other_names = set()
+                        for gk in p.assume:
+                            try:
+                                other_names |= {n_.id for n_ in ast.walk(ast.parse(gk, mode='eval')) if isinstance(n_, ast.Name)}
+                            except SyntaxError:
+                                other_names.add('?')
+                        if terms == {(k, 8 * k) for k in range(w)} and other_names <= {'i', 'self', 'len', 'opcode', 'datasize', 'data', 'sop_idx'} | {n_ for n_ in other_names if n_.startswith('OP_')}:
                             # what is read is known (w bytes at the cursor) and no test on this path keeps w bytes available:
                             # a fact about the path, whatever else was rewritten
                             sure_keys.add(key)
